@@ -329,6 +329,7 @@ SearchTicks(r, rq, body, t) ==
           \E s \in GetOr(snaps, r, {}) : tt \in Ticks(s, t) /\
              \/ CursorStart(s.S.sorder, rq.args.cursor) < 0
              \/ LET ids == SearchSchedulesIds(s.S, rq.args, idc) IN
+                /\ body.status = OK
                 /\ [i \in DOMAIN body.schedules |-> body.schedules[i].id] = ids
                 /\ body.cursor = (IF Len(ids) = rq.args.limit THEN Some(ids[Len(ids)]) ELSE None)
                 /\ \A i \in DOMAIN ids : LET row == s.S.schedules[ids[i]]  b == body.schedules[i] IN
